@@ -2,28 +2,114 @@
 Lemmas/Numbering: the closed-form class numbering of Spec/Poker.lean (`sclass`, `uclass`) is exactly
 the order rank of the rule-book `strength` among the 7462 shapes of five-card hands:
 class 1 = strongest … class 7462 = weakest, equal class ⇔ equal strength.
+
+Proof: `Kernel.unrank` lists the 7462 shapes in decreasing strength (a generated table).  The kernel
+checks (Kernel/NumA*, NumB*, glued in Kernel/NumAll) that
+  (A) every valid shape `s` has `1 ≤ cls s ≤ 7462`, `unrank (cls s) = s` and matching categories,
+  (B) every `i` in `1..7462` has `unrank i` valid of class `i`, strictly stronger than `unrank (i+1)`.
+Everything else follows by induction and trichotomy.
 -/
 import EspadaVerif.Spec.Poker
+import EspadaVerif.Kernel.NumAll
 
 namespace EspadaVerif.Lemmas
-open EspadaVerif Spec
+open EspadaVerif Spec Kernel
 
-theorem cls_range (s : Shape) (h : s.valid = true) : 1 ≤ s.cls ∧ s.cls ≤ 7462 := by
-  sorry
+/-- pass A, lifted: what the kernel checked for every valid shape -/
+theorem okShape_of_valid (s : Shape) (h : s.valid = true) : okShape s = true := by
+  obtain ⟨su, a, b, c, d, e⟩ := s
+  have hv := h
+  simp only [Shape.valid, Bool.and_eq_true, decide_eq_true_eq] at hv
+  obtain ⟨⟨⟨⟨⟨⟨hab, hbc⟩, hcd⟩, hde⟩, he⟩, _⟩, _⟩ := hv
+  have hA := chkRange_sound leafA 2197 0 numA_all (a * 169 + b * 13 + c) (by omega) (by omega)
+  have e1 : (a * 169 + b * 13 + c) / 169 = a := by omega
+  have e2 : (a * 169 + b * 13 + c) / 13 % 13 = b := by omega
+  have e3 : (a * 169 + b * 13 + c) % 13 = c := by omega
+  simp only [leafA, e1, e2, e3, leafP, hab, hbc, decide_true, Bool.and_self, Bool.not_true,
+    Bool.false_or] at hA
+  have hD := chkRange_sound _ _ _ hA d hcd (by omega)
+  have hE := chkRange_sound _ _ _ hD e hde (by omega)
+  simp only [Bool.and_eq_true] at hE
+  cases su
+  · exact hE.1
+  · exact hE.2
+
+theorem valid_facts (s : Shape) (h : s.valid = true) :
+    1 ≤ s.cls ∧ s.cls ≤ 7462 ∧ unrank s.cls = s ∧ categoryOfStrength s.str = catOfClass s.cls := by
+  have hok := okShape_of_valid s h
+  simp only [okShape, h, Bool.not_true, Bool.false_or, Bool.and_eq_true, decide_eq_true_eq,
+    beq_iff_eq] at hok
+  obtain ⟨⟨⟨h1, h2⟩, h3⟩, h4⟩ := hok
+  exact ⟨h1, h2, h3, h4⟩
+
+/-- pass B, lifted: what the kernel checked for every class index -/
+theorem unrank_facts (i : Nat) (h1 : 1 ≤ i) (h2 : i ≤ 7462) :
+    (unrank i).valid = true ∧ (unrank i).cls = i ∧ (i < 7462 → (unrank (i + 1)).str < (unrank i).str) := by
+  have hB := chkRange_sound leafB 7462 1 numB_all i h1 (by omega)
+  simp only [leafB, Bool.and_eq_true, Bool.or_eq_true, beq_iff_eq, decide_eq_true_eq] at hB
+  obtain ⟨⟨hv, hc⟩, hs⟩ := hB
+  refine ⟨hv, hc, fun hlt => ?_⟩
+  rcases hs with hs | hs
+  · omega
+  · exact hs
+
+/-- the table is strictly decreasing in strength -/
+theorem unrank_str_lt (i : Nat) (h1 : 1 ≤ i) : ∀ j, i < j → j ≤ 7462 → (unrank j).str < (unrank i).str := by
+  intro j
+  induction j with
+  | zero => intro h; omega
+  | succ j ih =>
+    intro hij hj
+    have hstep := (unrank_facts j (by omega) (by omega)).2.2 (by omega)
+    by_cases hji : i = j
+    · subst hji; exact hstep
+    · exact Nat.lt_trans hstep (ih (by omega) (by omega))
+
+theorem str_lt_of_cls_lt (s t : Shape) (hs : s.valid = true) (ht : t.valid = true) (h : s.cls < t.cls) :
+    t.str < s.str := by
+  obtain ⟨hs1, _, hsu, _⟩ := valid_facts s hs
+  obtain ⟨_, ht2, htu, _⟩ := valid_facts t ht
+  have := unrank_str_lt s.cls hs1 t.cls h ht2
+  rwa [hsu, htu] at this
+
+theorem eq_of_cls_eq (s t : Shape) (hs : s.valid = true) (ht : t.valid = true) (h : s.cls = t.cls) : s = t := by
+  have hsu := (valid_facts s hs).2.2.1
+  have htu := (valid_facts t ht).2.2.1
+  rw [← hsu, ← htu, h]
+
+theorem cls_range (s : Shape) (h : s.valid = true) : 1 ≤ s.cls ∧ s.cls ≤ 7462 :=
+  ⟨(valid_facts s h).1, (valid_facts s h).2.1⟩
 
 theorem cls_lt_iff (s t : Shape) (hs : s.valid = true) (ht : t.valid = true) :
     s.cls < t.cls ↔ t.str < s.str := by
-  sorry
+  constructor
+  · exact str_lt_of_cls_lt s t hs ht
+  · intro h
+    rcases Nat.lt_trichotomy s.cls t.cls with hlt | heq | hgt
+    · exact hlt
+    · have := eq_of_cls_eq s t hs ht heq
+      subst this; omega
+    · have := str_lt_of_cls_lt t s ht hs hgt
+      omega
 
 theorem cls_eq_iff (s t : Shape) (hs : s.valid = true) (ht : t.valid = true) :
     s.cls = t.cls ↔ s.str = t.str := by
-  sorry
+  constructor
+  · intro h
+    rw [eq_of_cls_eq s t hs ht h]
+  · intro h
+    rcases Nat.lt_trichotomy s.cls t.cls with hlt | heq | hgt
+    · have := str_lt_of_cls_lt s t hs ht hlt
+      omega
+    · exact heq
+    · have := str_lt_of_cls_lt t s ht hs hgt
+      omega
 
-theorem cls_onto (i : Nat) (h1 : 1 ≤ i) (h2 : i ≤ 7462) : ∃ s : Shape, s.valid = true ∧ s.cls = i := by
-  sorry
+theorem cls_onto (i : Nat) (h1 : 1 ≤ i) (h2 : i ≤ 7462) : ∃ s : Shape, s.valid = true ∧ s.cls = i :=
+  ⟨unrank i, (unrank_facts i h1 h2).1, (unrank_facts i h1 h2).2.1⟩
 
 /-- the category read off the class index is the rule book's category -/
-theorem category_of_cls (s : Shape) (h : s.valid = true) : categoryOfStrength s.str = catOfClass s.cls := by
-  sorry
+theorem category_of_cls (s : Shape) (h : s.valid = true) : categoryOfStrength s.str = catOfClass s.cls :=
+  (valid_facts s h).2.2.2
 
 end EspadaVerif.Lemmas
